@@ -17,6 +17,8 @@ import YtkProofs.FuncsLemmas
 import YtkProofs.GapAnalytics
 import YtkProofs.GapAnalyticsResolve
 import YtkProofs.GapAnalyticsNofix
+import YtkProofs.FuncsDomAnalytics
+import YtkProofs.FuncsDomMatcher
 
 namespace Ytk.C19
 open Ytk.Analytics
@@ -164,7 +166,7 @@ theorem impact_exact (doc : Doc) (keys : List String) (k : String) (c : List Coo
       ((impact mentions doc keys).map (·.1)).Nodup := by
   refine ⟨?_, impact_keys_nodup mentions doc keys⟩
   rw [mem_impact]
-  have : search (mentions k) doc = mentionsOf mentions [doc] k := by
+  have : Analytics.search (mentions k) doc = mentionsOf mentions [doc] k := by
     simp only [mentionsOf, List.flatMap_cons, List.flatMap_nil, List.append_nil]
     rfl
   rw [this]
@@ -231,7 +233,7 @@ theorem impact_order_indep (doc doc' : Doc) (hd : DocPerm doc' doc) (keys : List
   rw [mem_impact] at h
   obtain ⟨hk, rfl, hne⟩ := h
   have hp := search_perm (mentions k) hd
-  refine ⟨search (mentions k) doc, ?_, hp⟩
+  refine ⟨Analytics.search (mentions k) doc, ?_, hp⟩
   rw [mem_impact]
   exact ⟨hk, rfl, fun e => hne (by rw [e] at hp; exact hp.eq_nil)⟩
 
@@ -459,5 +461,47 @@ theorem Unique_loop1_eq (xs acc : List String) : Funcs.Unique_loop1 xs acc = Ana
 /-- utils.Unique, as translated from the source, is the model's `Analytics.unique []` (all lists) -/
 theorem Unique_generated_eq_model (xs : List String) : Funcs.Unique xs = Analytics.unique [] xs := by
   simp [Funcs.Unique, Unique_loop1_eq]
+
+end Ytk.C19
+
+/-! ## xlate7d: the REGENERATED translation of the resolvers' pure helpers (Generated/FuncsAnalytics.lean) -/
+namespace Ytk.C19
+open Ytk.Generated
+
+/-- `subtract(from, what)` (the orphan keys of the dependency report), for all lists -/
+theorem subtract_generated_eq_model (frm what : List String) :
+    FuncsAnalytics.subtract frm what = Analytics.subtract frm what :=
+  FuncsDomAnalytics.subtract_generated_eq_model frm what
+
+/-- `possiblyContainsPlaceholder(in)` (the default placeholder matcher of the placeholder resolver): `strings.Index`,
+    `in[idx:]`, `strings.Index` again — the model's `${` … `}` scan, for all strings; never panics -/
+theorem possiblyContainsPlaceholder_generated_eq_model (s : String) :
+    FuncsAnalytics.possiblyContainsPlaceholder s = .ok (Analytics.possiblyContainsPlaceholder s) :=
+  FuncsDomAnalytics.possiblyContainsPlaceholder_generated_eq_model s
+
+theorem nonvacuous_analytics_generated :
+    FuncsAnalytics.subtract ["a", "b", "c"] ["b"] = ["a", "c"] ∧
+    FuncsAnalytics.possiblyContainsPlaceholder "x${y}z" = .ok true ∧ FuncsAnalytics.possiblyContainsPlaceholder "}x${y" = .ok false := by
+  decide +kernel
+
+/-- `hasPlaceholderFunc(ph)(val)` — the default placeholder matcher of the dependency resolver and of the impact
+    analysis (a function returning a closure; translated uncurried): the value is a string containing `${ph}`, or
+    starting with `${ph:` and ending with `}` — the model's `hasPlaceholder`, for all keys and all leaf values -/
+theorem hasPlaceholderFunc_generated_eq_model (k : String) (v : Scalar) :
+    FuncsDom.hasPlaceholderFunc k v = .ok (Analytics.hasPlaceholder k v) :=
+  FuncsDomMatcher.hasPlaceholderFunc_generated_eq_model k v
+
+theorem nonvacuous_hasPlaceholderFunc_generated :
+    FuncsDom.hasPlaceholderFunc "a.b" ⟨"string", "x ${a.b} y"⟩ = .ok true ∧
+    FuncsDom.hasPlaceholderFunc "a.b" ⟨"string", "${a.b:default}"⟩ = .ok true ∧
+    FuncsDom.hasPlaceholderFunc "a.b" ⟨"string", "${a.bc}"⟩ = .ok false ∧
+    FuncsDom.hasPlaceholderFunc "1" ⟨"int", "${1}"⟩ = .ok false := by
+  decide +kernel
+
+/-- `dom.SearchEqual(ph)(val)` (with which the placeholder resolver looks up the coordinates of an unresolved value):
+    `cmp.Equal(val, ph)` — for a string `ph` the model's `searchEqualStr`, for all leaf values -/
+theorem SearchEqual_generated_eq_model (ph : String) (v : Scalar) :
+    FuncsDom.SearchEqual ⟨"string", ph⟩ v = .ok (Analytics.searchEqualStr ph v) :=
+  FuncsDomMatcher.SearchEqual_generated_eq_model ph v
 
 end Ytk.C19
